@@ -86,12 +86,13 @@ def import_triples(code: str):
 
 
 # ---------------------------------------------------------------- kernel with symbolic item strings
-def remove_kernel_body(t, mod1, obj1, mod2, obj2, max_items=2):
+def remove_kernel_body(t, mod1, obj1, mod2, obj2, max_items=2, sources=None, only_from=False):
     # items come from GatherImportsVisitor on the stub: module and object names are non-empty
     ASSUME(1 <= len(mod1) <= 8 and 1 <= len(obj1) <= 4 and 1 <= len(mod2) <= 8 and 1 <= len(obj2) <= 4)
-    src = SRC_NAMES[t.take(len(SRC_NAMES))]
-    n_items = 1 + t.take(max_items)
-    kinds = [t.take(3) for _ in range(n_items)]  # 0: from-import item, 1: plain `import m` item, 2: from-import with alias
+    srcs = sources if sources is not None else SRC_NAMES
+    src = srcs[t.take(len(srcs))]
+    n_items = 1 + t.take(max_items) if max_items > 0 else 2
+    kinds = [0 if only_from else t.take(3) for _ in range(n_items)]  # 0: from-import item, 1: plain `import m` item, 2: from-import with alias
 
     def mk(kind, m, o):
         if kind == 1:
@@ -128,6 +129,7 @@ STUBS = {
     "same_name_as_alias": "from shapes import Sq\n\ndef f(a: Sq) -> None: ...\n",
     "typed_dict": "from mypy_extensions import TypedDict\n\n\nclass ATypedDict__RENAME_ME__(TypedDict):\n    x: int\n\n\ndef f(a: 'ATypedDict__RENAME_ME__') -> int: ...\n",
     "already_imported": "from shapes import Sq\nimport sys\n\ndef f(a: Sq) -> None: ...\n",
+    "typing_prefixed_module": "from typing_extra import Thing\nfrom geometry import Point\n\ndef f(a: Thing) -> Point: ...\n",
 }
 STUB_NAMES = tuple(STUBS)
 # modules the fixture sources / stubs import: provided as real (empty-ish) modules when the result is executed
@@ -135,6 +137,7 @@ FAKE_MODULES = {
     "shapes": "class Sq:\n    def __init__(self, a=None):\n        self.a = a\nclass Tri: pass\nclass Pt: pass\n",
     "geometry": "class Point: pass\n",
     "inner": "class X: pass\n",
+    "typing_extra": "class Thing: pass\n",
 }
 
 
@@ -216,12 +219,19 @@ def confine_body(t, pairs=None):
 
 
 QUICK_PAIRS = (("plain_import", "user_class"), ("from_alias", "typing_and_user"), ("docstring_future", "user_class"), ("no_imports", "typing_and_user"),
-               ("plain_import", "same_module_new_name"), ("from_alias", "same_name_as_alias"), ("no_imports", "typed_dict"), ("dotted_alias", "user_class"))
+               ("plain_import", "same_module_new_name"), ("from_alias", "same_name_as_alias"), ("no_imports", "typed_dict"), ("dotted_alias", "user_class"), ("no_imports", "typing_prefixed_module"))
 tape_harness("confine_quick", [("t", 1)], {}, lambda t: confine_body(t, QUICK_PAIRS), globals())
 tape_harness("confine_all", [("t", 2)], {}, lambda t: confine_body(t), globals())
 
 
+KERNEL2_SOURCES = ("from_alias", "from_two")
+tape_harness("remove_kernel2q", [("t", 5)], {"mod1": "str", "obj1": "str", "mod2": "str", "obj2": "str"},
+             lambda t, mod1, obj1, mod2, obj2: remove_kernel_body(t, mod1, obj1, mod2, obj2, 0, KERNEL2_SOURCES, True), globals())
+
+
 def shards(name):
+    if name == "remove_kernel2q":
+        return [{"t0": i} for i in range(len(KERNEL2_SOURCES))]
     if name.startswith("remove_kernel"):
         return [{"t0": i, "t1": j} for i in range(len(SRC_NAMES)) for j in range(1 if name.endswith("1") else 2)]
     if name == "confine_quick":
@@ -231,7 +241,9 @@ def shards(name):
 
 def describe(name, args):
     out = dict(args)
-    if name.startswith("remove_kernel"):
+    if name == "remove_kernel2q":
+        out["source"] = KERNEL2_SOURCES[min(max(args.get("t0", 0), 0), 1)]
+    elif name.startswith("remove_kernel"):
         out["source"] = SRC_NAMES[min(max(args.get("t0", 0), 0), len(SRC_NAMES) - 1)]
     elif name == "confine_quick":
         out["case"] = QUICK_PAIRS[min(max(args.get("t0", 0), 0), len(QUICK_PAIRS) - 1)]
